@@ -95,6 +95,8 @@ type spawnConfig struct {
 	enableStash bool
 	// isSystem marks the actor as a system actor, used internally for system-level actors.
 	isSystem bool
+	// postStartOnAttach holds PostStart back until the spawn attached the actor to the tree.
+	postStartOnAttach bool
 	// placement specifies the placement strategy for spawning the actor in a cluster.
 	placement SpawnPlacement
 	// passivationStrategy defines the strategy used for actor passivation.
@@ -634,6 +636,15 @@ func withSingleton(spec *singletonSpec) SpawnOption {
 func asSystem() SpawnOption {
 	return spawnOption(func(config *spawnConfig) {
 		config.isSystem = true
+	})
+}
+
+// postStartOnAttach is set by the spawn paths that attach the actor to the
+// tree right after configPID: PostStart is processed only once the actor is
+// attached (see PID.startAttached).
+func postStartOnAttach() SpawnOption {
+	return spawnOption(func(config *spawnConfig) {
+		config.postStartOnAttach = true
 	})
 }
 
